@@ -198,8 +198,11 @@ def _work(st, batch):
     kinds = {v: Counter() for v in VARIANTS}
     for tag, text, mode in batch:
         b = text.encode("utf-8", "surrogatepass")
+        streams = {}
         for v in VARIANTS:
             rep = st[v].json("lex", [mode, 0], text)
+            if "toks" in rep and not rep.get("capped"):
+                streams[v] = ([t for t in rep["toks"] if t[0] not in ("Comment", "NonLogicalNewline")], rep["err"])
             wit = {"op": "lex", "variant": v, "mode": mode, "text": text, "tag": tag}
             if "panic" in rep:
                 res.add("unlisted:panic", rep, wit)
@@ -212,6 +215,14 @@ def _work(st, batch):
             check_tokens(res, b, rep["toks"], v == "fulllex", wit, kinds[v])
             if v == "fulllex":
                 check_full_against_tokenize(res, text, b, rep["toks"], wit)
+        if len(streams) == len(VARIANTS) and len(VARIANTS) > 1:
+            # the two configurations are two views of one token sequence: same kinds, same ranges, same payloads, same error
+            a, c = streams[VARIANTS[0]], streams[VARIANTS[1]]
+            res.counters["streams compared across lexer configurations"] += 1
+            if a != c:
+                k = next((i for i, (x, y) in enumerate(zip(a[0], c[0])) if x != y), min(len(a[0]), len(c[0])))
+                res.add("unlisted:token-streams-differ-between-lexer-configurations", {"first_difference": k, VARIANTS[0]: a[0][k:k + 2], VARIANTS[1]: c[0][k:k + 2], "errors": [a[1], c[1]]},
+                        {"op": "lex", "variants": VARIANTS, "mode": mode, "text": text, "tag": tag})
         if len(res.samples) < 2 and len(text) < 200:
             res.sample({"tag": tag, "text": text})
     for v in VARIANTS:
